@@ -4,7 +4,7 @@ Evaluate one seeded change produced by an independent sub-agent.
 
   python3 tools/seeded.py <name> <worktree> <property> [--checks C01,C09,...] [--skip-confirm]
 
-1. confirm in the scratch worktree (shared CARGO_TARGET_DIR=/tmp/mut-target): the demonstration fails with the
+1. confirm in the scratch worktree (CARGO_TARGET_DIR=/tmp/mut-target-<name>, removed afterwards): the demonstration fails with the
    change and passes without it; the existing test suite passes with the change;
 2. copy patch.diff / demo / notes into /verif/seeded/<name>/;
 3. apply the patch to /repo, run the listed checks (quick tier), undo the patch (git checkout -- .);
@@ -17,7 +17,8 @@ checks = [prop]
 skip_confirm = "--skip-confirm" in sys.argv
 if "--checks" in sys.argv:
     checks = sys.argv[sys.argv.index("--checks") + 1].split(",")
-env = dict(os.environ, CARGO_TARGET_DIR="/tmp/mut-target", CARGO_NET_OFFLINE="true")
+TARGET = f"/tmp/mut-target-{name}"  # one build directory per worktree: a shared one serves stale test binaries
+env = dict(os.environ, CARGO_TARGET_DIR=TARGET, CARGO_NET_OFFLINE="true")
 def sh(cmd, cwd=None, timeout=3600, plain_env=False):
     # the shared target dir is only for the confirmation builds in the scratch worktree; the checks must build
     # into the harness' own target directory
@@ -42,8 +43,8 @@ for cand in ("nomt/tests/mut_demo.rs", "core/tests/mut_demo.rs"):
 crate = "nomt" if demo_path and demo_path.startswith("nomt/") else "nomt-core"
 if not skip_confirm and demo_path:
     def run_demo():
-        rc, out = sh(f"cargo test --offline -p {crate} --test mut_demo 2>&1 | tail -15", cwd=wt)
-        ok = "test result: ok" in out
+        rc, out = sh(f"cargo test --offline -p {crate} --test mut_demo 2>&1 | tail -25", cwd=wt)
+        ok = ("test result: ok" in out) and ("test result: FAILED" not in out) and ("error" not in out.lower().split("test result")[0][-400:] if "test result" in out else False)
         sh(f"rm -rf {wt}/nomt/test {wt}/core/test")
         return ok, out[-1500:]
     # state with the change applied?
@@ -63,6 +64,14 @@ if not skip_confirm and demo_path:
     meta["suite_with_change"] = out.strip()[-600:]
     meta["ran"].append("cargo nextest run --workspace (with the change): " + out.strip().splitlines()[0] if out.strip() else "no summary")
     meta["confirmed"] = (not ok_with) and ok_without
+    shutil.rmtree(TARGET, ignore_errors=True)
+if "--no-checks" in sys.argv:
+    old = json.load(open(f"{d}/meta.json")) if os.path.exists(f"{d}/meta.json") else {}
+    old.update({k: meta[k] for k in meta if k not in ("ran",)})
+    old["ran"] = sorted(set(old.get("ran", []) + meta["ran"]))
+    json.dump(old, open(f"{d}/meta.json", "w"), indent=1)
+    print(json.dumps({k: old.get(k) for k in ("name", "confirmed", "demo_with_change_passes", "demo_without_change_passes")}))
+    sys.exit(0)
 # ---- run the checks against /repo with the patch applied
 rc, out = sh("git status --porcelain", cwd="/repo")
 if out.strip():
